@@ -272,24 +272,55 @@ func (P *Program) Field(rel, typ, field string) *types.Var {
 	// the field may only have been renamed since the baseline: the single field of this struct that
 	// is not in the recorded list and has the recorded type
 	bf := loadFieldBaseline()
-	want, ok := bf[rel+" "+typ+" "+field]
+	rec, ok := bf[rel+" "+typ+" "+field]
 	if !ok {
 		return nil
 	}
-	var cand *types.Var
+	want, wantIdx, wantCnt := rec, -1, -1
+	if i := strings.Index(rec, "\t"); i >= 0 {
+		want = rec[:i]
+		fmt.Sscanf(rec[i+1:], "%d/%d", &wantIdx, &wantCnt)
+	}
+	var cands []*types.Var
+	var idxs []int
 	for i := 0; i < st.NumFields(); i++ {
 		f := st.Field(i)
 		if _, known := bf[rel+" "+typ+" "+f.Name()]; known {
 			continue
 		}
 		if types.TypeString(f.Type(), nil) == want {
-			if cand != nil {
-				return nil // ambiguous
-			}
-			cand = f
+			cands = append(cands, f)
+			idxs = append(idxs, i)
 		}
 	}
-	return cand
+	if len(cands) == 1 {
+		return cands[0]
+	}
+	// several renamed fields of the same type: the one at the recorded position (if the struct has
+	// the recorded number of fields), else the one sharing the longest prefix with the recorded name
+	if wantCnt == st.NumFields() {
+		for k, i := range idxs {
+			if i == wantIdx {
+				return cands[k]
+			}
+		}
+	}
+	best, bestLen, tie := -1, 0, false
+	for k, f := range cands {
+		n := 0
+		for n < len(f.Name()) && n < len(field) && f.Name()[n] == field[n] {
+			n++
+		}
+		if n > bestLen {
+			best, bestLen, tie = k, n, false
+		} else if n == bestLen {
+			tie = true
+		}
+	}
+	if best >= 0 && !tie && bestLen >= 3 {
+		return cands[best]
+	}
+	return nil
 }
 
 // Method finds the *types.Func of a method (pointer or value receiver).
